@@ -336,3 +336,110 @@ func Select2Default[A, B any](a <-chan A, b <-chan B) (idx int, va A, oka bool, 
 
 // Select1 replaces a select with a single receive case.
 func Select1[A any](a <-chan A) (A, bool) { return Recv2(a) }
+
+// Pool is a deterministic sync.Pool: a LIFO free list that never drops what was put back (the
+// real pool may drop items at a collection; keeping them is the case in which a stale item is
+// handed out again). Access is a scheduling point like a lock operation.
+type Pool struct {
+	New   func() any
+	items []any
+}
+
+func (p *Pool) Get() any {
+	if sched.Active() {
+		sched.Point("pool.get")
+		sched.Touch(p)
+	}
+	if n := len(p.items); n > 0 {
+		x := p.items[n-1]
+		p.items = p.items[:n-1]
+		return x
+	}
+	if p.New != nil {
+		return p.New()
+	}
+	return nil
+}
+
+func (p *Pool) Put(x any) {
+	if x == nil {
+		return
+	}
+	if sched.Active() {
+		sched.Point("pool.put")
+		sched.Touch(p)
+	}
+	p.items = append(p.items, x)
+}
+
+// Map is a deterministic sync.Map (plain map behind scheduling points; Range in insertion order).
+type Map struct {
+	m    map[any]any
+	keys []any
+}
+
+func (m *Map) point(op string) {
+	if sched.Active() {
+		sched.Point("map." + op)
+		sched.Touch(m)
+	}
+}
+
+func (m *Map) Load(k any) (any, bool) { m.point("load"); v, ok := m.m[k]; return v, ok }
+
+func (m *Map) Store(k, v any) {
+	m.point("store")
+	if m.m == nil {
+		m.m = map[any]any{}
+	}
+	if _, ok := m.m[k]; !ok {
+		m.keys = append(m.keys, k)
+	}
+	m.m[k] = v
+}
+
+func (m *Map) LoadOrStore(k, v any) (any, bool) {
+	m.point("loadorstore")
+	if old, ok := m.m[k]; ok {
+		return old, true
+	}
+	if m.m == nil {
+		m.m = map[any]any{}
+	}
+	m.keys = append(m.keys, k)
+	m.m[k] = v
+	return v, false
+}
+
+func (m *Map) LoadAndDelete(k any) (any, bool) {
+	m.point("loadanddelete")
+	v, ok := m.m[k]
+	if ok {
+		m.remove(k)
+	}
+	return v, ok
+}
+
+func (m *Map) Delete(k any) { m.point("delete"); m.remove(k) }
+
+func (m *Map) remove(k any) {
+	if _, ok := m.m[k]; !ok {
+		return
+	}
+	delete(m.m, k)
+	for i, x := range m.keys {
+		if x == k {
+			m.keys = append(m.keys[:i], m.keys[i+1:]...)
+			break
+		}
+	}
+}
+
+func (m *Map) Range(f func(k, v any) bool) {
+	m.point("range")
+	for _, k := range append([]any{}, m.keys...) {
+		if v, ok := m.m[k]; ok && !f(k, v) {
+			return
+		}
+	}
+}
